@@ -61,12 +61,12 @@ pub fn run_property(ctx: &Ctx) -> Option<Report> {
         "C01" | "C02" | "C03" | "C05" | "C12" | "C13" | "C16" => {
             let (mon, quick, thorough, nontrivial) = match ctx.prop.as_str() {
                 "C01" => (Monitor::C01, 40_000, 1_000_000, "the prefix produced a reset, a >50 KB (truncated) reply, a mid-reset copy, a rejected delta or healed a partition with divergent copies, AND at least one copy lagged when the fair phase started"),
-                "C02" => (Monitor::C02, 200_000, 5_000_000, "some copy had passed a delete/TTL write of its member and later received a delivery carrying data about that member"),
-                "C03" => (Monitor::C03, 200_000, 5_000_000, ">= 3 nodes with an entry learned through a third party, or a copy rebuilt by a reset"),
-                "C05" => (Monitor::C05, 200_000, 5_000_000, "a processed message mentioned the receiver itself in its digest or delta"),
-                "C12" => (Monitor::C12, 200_000, 5_000_000, "a member was removed after the grace period and a later digest mentioned it"),
-                "C13" => (Monitor::C13, 200_000, 5_000_000, "the live set or a live member's max version changed between two evaluations"),
-                _ => (Monitor::C16, 200_000, 5_000_000, "a cross-cluster SYN was delivered and some delivery was a duplicate or out of order"),
+                "C02" => (Monitor::C02, 200_000, 2_000_000, "some copy had passed a delete/TTL write of its member and later received a delivery carrying data about that member"),
+                "C03" => (Monitor::C03, 200_000, 2_000_000, ">= 3 nodes with an entry learned through a third party, or a copy rebuilt by a reset"),
+                "C05" => (Monitor::C05, 200_000, 2_000_000, "a processed message mentioned the receiver itself in its digest or delta"),
+                "C12" => (Monitor::C12, 200_000, 3_000_000, "a member was removed after the grace period and a later digest mentioned it"),
+                "C13" => (Monitor::C13, 200_000, 3_000_000, "the live set or a live member's max version changed between two evaluations"),
+                _ => (Monitor::C16, 200_000, 3_000_000, "a cross-cluster SYN was delivered and some delivery was a duplicate or out of order"),
             };
             let mut r = Report::new(&format!(
                 "cases = generated histories (writes/deletes/TTL, clock advances around the grace periods, heartbeats, key GC, liveness evaluations, SYNs, deliveries in any order, drops, duplicates, cuts/heals, late joins, crashes/restarts under a new generation, held SYN-ACKs, external catch-up calls fed with a peer's copy) on 2..5 real nodes exchanging real datagrams; generator profiles: small / truncation / gc / partition / membership / trunc-gc (uniform op mixes) and deep / phased / member-phased (focused macro-level and phased generators built to reach mid-reset copies meeting delayed replies, stale peers, skewed death detection); every copy is compared with the owner ledger after every step; non-trivial = {nontrivial}; distinct = by history"
@@ -100,7 +100,7 @@ pub fn run_property(ctx: &Ctx) -> Option<Report> {
                 "three sub-checks: (a) generated cluster histories with frontier / key-version monotonicity monitors and panic capture around every honest message; (b) (copy, honest-form delta) pairs, small scope enumerated, delivered once and twice, whether or not an honest sender would have produced the delta for that copy; (c) local API sequences against the reference model (version allocation).                  non-trivial = (a) history with a duplicated or reordered delivery, (b) pair with a delta, (c) as in C06; distinct = by case",
             );
             r.assume("honest-form deltas: ascending key-values above the announced start, or an explicit max version above it");
-            sim::run(ctx, &mut r, Monitor::C04, 150_000, 3_000_000);
+            sim::run(ctx, &mut r, Monitor::C04, 120_000, 1_500_000);
             pairs::run_c04b(ctx, &mut r);
             kv::run(ctx, &mut r, "C04");
             r
@@ -110,7 +110,7 @@ pub fn run_property(ctx: &Ctx) -> Option<Report> {
                 "cases = (a) generated cluster histories with a counting catch-up callback on every node, (b) (copies, multi-member honest-form delta) pairs incl. members just created by the message's digest and duplicates; around every processed message: callback count == 1 iff some member copy's watermark rose, cross-checked with the reset rule evaluated on the independently decoded delta;                  non-trivial = a message that resets at least one copy (sub-counts: >= 2 resets in one message, narrowly avoided resets); distinct = by case",
             );
             r.assume("key GC never runs inside message processing, so a watermark rising during processing is exactly a reset");
-            sim::run(ctx, &mut r, Monitor::C20, 100_000, 2_000_000);
+            sim::run(ctx, &mut r, Monitor::C20, 100_000, 1_500_000);
             pairs::run_c20b(ctx, &mut r);
             r
         }
